@@ -144,7 +144,10 @@ def run_deque_harness(ctx, h, mode, seed, first, count, timeout):
     cur = first
     end = first + count
     guard = 0
-    while cur < end and guard < 50:
+    nhang = 0
+    # a hang costs the watchdog's 20 s: after 2 hangs (or 25 crashes) of the real code the batch is abandoned —
+    # the cases are reported and the check fails anyway
+    while cur < end and guard < 25 and nhang < 2:
         guard += 1
         rc, out = sh([h, mode, str(seed), str(cur), str(end - cur)], timeout=timeout)
         lines = out.split('\n')
@@ -163,6 +166,8 @@ def run_deque_harness(ctx, h, mode, seed, first, count, timeout):
                 died.append((cid, int(m.group(2)), m.group(3), last_in if last_in and last_in.split(' ')[2] == cid else ins.get(cid)))
                 cur = int(cid) + 1
                 restarted = True
+                if m.group(3) == 'HANG':
+                    nhang += 1
             elif ln.startswith('HARNESS-ERROR'):
                 errs.append(ln)
         if restarted:
@@ -229,9 +234,9 @@ def check_deque_cases(ctx, r, drv, label, harness_args, ins, outs, died, errs):
             r.hits.append(Hit('monitor', sig, 'lock-free deque (%s, case %s): %s' % (label, k, mon[1]),
                               {'harness': 'c17_deque', 'args': harness_args, 'case': i_, 'observed': o_,
                                'model_says_aba': aba, 'model_agrees': agree}))
-        if m_:
+        if m_ and mod.get('done') == '1':
             mm = dq_monitor(i_, m_)
-            if mm and not aba:
+            if mm and not aba and mm[0] != 'incomplete':
                 r.hits.append(Hit('model', 'C17:deque:model_' + mm[0],
                                   'the deque MODEL violates exactly-once without a recycled-node link CAS on case %s: %s' % (k, mm[1]),
                                   {'case': i_, 'model': m_}))
@@ -450,7 +455,7 @@ def run(ctx):
     for sd in seeds:
         ins, outs, died, errs = run_deque_harness(ctx, h_dq, 'lock', sd, 0, ncase, 600 if quick else 3000)
         naba += check_deque_cases(ctx, r, drv, 'lock-step seed %d' % sd, ['lock', sd, 0, ncase], ins, outs, died, errs)
-        if len(outs) + len(died) < ncase and not errs:
+        if len(outs) + len(died) < ncase and not errs and not died:
             r.hits.append(Hit('tie', 'C17:deque_harness', 'lock-step harness ran only %d of %d cases' % (len(outs), ncase),
                               {'harness': 'c17_deque', 'args': ['lock', sd, 0, ncase]}))
     r.extra['deque_cases_in_which_a_link_cas_hit_a_recycled_node'] = naba
